@@ -26,7 +26,8 @@ RULE = (
     "messages / targets / comments dropped, adjacent text merged); the two must be equal: every leaf once, in order, "
     "verbatim, under corresponding containers, with link destination, image uri / alt / title, list start / "
     "delimiter, cell alignment and code language carried over; docutils and Sphinx skeletons must also equal each "
-    "other. Cases containing dynamic syntax (roles, directives, footnotes, substitutions) are excluded (counted). "
+    "other; plus (headings) every sequence of heading levels up to length 4 / 5 with marked content, exhaustively, "
+    "to check source order of leaves across any section structure. Cases containing dynamic syntax (roles, directives, footnotes, substitutions) are excluded (counted). "
     "Non-trivial: skeleton depth >= 3 or >= 2 distinct container kinds; distinct by skeleton."
 )
 ASSUMPTIONS = [
@@ -230,8 +231,34 @@ def sub_both(acc, shard, nshards, tier, seed):
                 seed=shard_seed(seed, shard, 22), is_known=known().matches)
 
 
+def sub_headings(acc, shard, nshards, tier, seed):
+    """Every sequence of heading levels (1-4, length <= 4; thorough: 1-6, length <= 5) with a marked paragraph, an emphasis
+    and a list under each heading: sections are transparent in the skeleton, so this checks that every leaf stays in
+    source order whatever the section structure does (exhaustive)."""
+    import itertools
+
+    kn = known()
+    top, maxlen = (4, 4) if tier == "quick" else (6, 5)
+    i = 0
+    for n in range(1, maxlen + 1):
+        for seq in itertools.product(range(1, top + 1), repeat=n):
+            i += 1
+            if i % nshards != shard:
+                continue
+            parts = []
+            for k, L in enumerate(seq):
+                parts.append("#" * L + f" title{k}\n\npara{k} *em{k}*\n\n- item{k}\n")
+            for mode in ("commonmark", "myst"):
+                for v in check_case(acc, {"text": "\n".join(parts), "mode": mode, "smart": []}):
+                    if kn.matches(v):
+                        acc.known_hits[v["signature"]] += 1
+                    elif len(acc.violations) < 8 and all(v["signature"] != x["signature"] for x in acc.violations):
+                        acc.violations.append(v)
+    acc.exhaustive = True
+
+
 def plan(tier):
-    return [Sub("docutils", sub_docutils, 10), Sub("both", sub_both, 6)]
+    return [Sub("headings", sub_headings, 4), Sub("docutils", sub_docutils, 8), Sub("both", sub_both, 4)]
 
 
 def replay(sub, input):
